@@ -32,9 +32,13 @@ CLAIMED = {
              "any command sequence of a read; Undo never panics for any count; each Undo lands on a text of that script; one "
              "Undo removes exactly one recorded change or exactly one Begin..End group; a count beyond the stack yields the "
              "empty line; begin + any notifications + truncate(mark) restores the changeset exactly (stack and group depth), "
-             "which is what aborting a search or completion does. PARTIAL: the sub-loops themselves and the link from script "
-             "texts to texts actually displayed are decided by the correspondence and by the oracle (earlier-observed texts, "
-             "unit after word-sized edits, count 99 empties, paired scripts with/without an aborted episode).",
+             "which is what aborting a search or completion does; THE SUB-LOOPS (Emacs mode): a whole incremental-search session "
+             "(any keys typed inside it, any number of hits) or circular-completion session (any contract-keeping completer) that "
+             "ends without handing a command back -- an abort, or nothing to search / complete -- leaves the line, its cursor AND "
+             "the undo stack exactly as they were before it (C05_search_abort_is_noop, C05_completion_abort_is_noop). PARTIAL: in "
+             "vi mode that statement is FALSE of the code (known finding K9); list-mode completion, accepted sessions and the link "
+             "from script texts to texts actually displayed are decided by the correspondence and by the oracle (earlier-observed "
+             "texts, unit after word-sized edits, count 99 empties, paired scripts with/without an aborted episode).",
         note=TTY_NOTE,
         technique="Coq proof: invariant by induction over notifications / commands (compositional 'preserves' calculus over the editor monad); induction over the undo stack; extracted-model differential check through a pty + metamorphic oracle"),
     "C06": dict(
